@@ -972,7 +972,14 @@ func (c *mrCtx) analyse() {
 	})
 }
 
+var typedUrl, typedCanon *pkgFiles
+
 func modref() (url []string, canon []string, stats string) {
+	u, c, s, _, _ := modrefTyped()
+	return u, c, s
+}
+
+func modrefTyped() (url []string, canon []string, stats string, uinfo, cinfo *types.Info) {
 	w := &mrWorld{funcs: map[string]*mrFunc{}, byName: map[string][]*mrFunc{}}
 	up := parseDir("/repo/url")
 	upkg, uinfo := typeCheck(up, "/repo/url", "github.com/nlnwa/whatwg-url/url")
@@ -980,6 +987,7 @@ func modref() (url []string, canon []string, stats string) {
 	cp := parseDir("/repo/canonicalizer")
 	cpkg, cinfo := typeCheck(cp, "/repo/canonicalizer", "github.com/nlnwa/whatwg-url/canonicalizer")
 	w.add(cp, cpkg, cinfo)
+	typedUrl, typedCanon = up, cp
 	rounds := 0
 	for {
 		rounds++
@@ -995,12 +1003,17 @@ func modref() (url []string, canon []string, stats string) {
 	}
 	for _, k := range w.order {
 		f := w.funcs[k]
-		line := fmt.Sprintf("(%s, %s, %s, %s, %s, %s)", leanStr(f.display), leanBool(f.api), leanStrList(f.writes.sorted()), leanStrList(f.returns.sorted()), leanStrList(f.aliases.sorted()), leanStrList(f.extern.sorted()))
+		var ext []string
+		for _, e := range f.extern.sorted() {
+			parts := strings.SplitN(e, "@", 2)
+			ext = append(ext, fmt.Sprintf("(%s, %s)", leanStr(parts[0]), leanStr(parts[1])))
+		}
+		line := fmt.Sprintf("(%s, %s, %s, %s, %s, [%s])", leanStr(f.display), leanBool(f.api), leanStrList(f.writes.sorted()), leanStrList(f.returns.sorted()), leanStrList(f.aliases.sorted()), strings.Join(ext, ", "))
 		if f.pkg == "url" {
 			url = append(url, line)
 		} else {
 			canon = append(canon, line)
 		}
 	}
-	return url, canon, fmt.Sprintf("%d functions, %d rounds", len(w.order), rounds)
+	return url, canon, fmt.Sprintf("%d functions, %d rounds", len(w.order), rounds), uinfo, cinfo
 }
